@@ -35,14 +35,14 @@ ASSUMPTIONS = [
 DBS = [None, "db1", "DB1", "Db1"]
 SCS = [None, "s1", "S1", "information_schema", "INFORMATION_SCHEMA"]
 STORAGE = ["memory", "path_fresh", "path_reopen"]
-PRIOR = ["nothing", "db", "db_schema", "other_live"]
+PRIOR = ["nothing", "db", "db_schema", "other_live", "open_txn"]
 SECOND = ["none", "same", "other_schema", "noargs", "other_case", "other_db", "same_after_drop_schema"]
 
 
 def gen_cases(tier: str, seed: int):
     # instances that also carry nop_regexes (connect's own set-up is not a user statement), names with _ and $ next to
     # look-alike objects (DBX1 / SX1 exist, DB_1 / S_1 are asked for)
-    for prior in [p for p in PRIOR if p != "other_live"] + ["lookalike"]:  # (the other_live preparation itself uses USE)
+    for prior in [p for p in PRIOR if p not in ("other_live", "open_txn")] + ["lookalike"]:  # (the other_live preparation itself uses USE)
         for db in ("db1", "data_warehouse", "db_1"):
             for sc in (None, "s1", "s_1", "sales$eu"):
                 for cd, cs in ((True, True), (True, False), (False, False)):
@@ -96,16 +96,21 @@ def _observe(fs: Any) -> tuple[set, set, set]:
 def _prep(fs: Any, world: World, prior: str, path_mode: bool) -> Any:
     """Create the prior state with statements; returns a live other session (or None)."""
     other = None
-    if prior in ("db", "db_schema"):
+    if prior in ("db", "db_schema", "open_txn"):
         c = fs.connect()
         cur = c.cursor()
         cur.execute("CREATE DATABASE DB1")
         world.new_db("DB1", False)
-        if prior == "db_schema":
+        if prior in ("db_schema", "open_txn"):
             cur.execute("CREATE SCHEMA DB1.S1")
             cur.execute("CREATE TABLE DB1.S1.PROBE_T (ID INT, NAME VARCHAR(20)) COMMENT = 'probe table'")
             cur.execute("INSERT INTO DB1.S1.PROBE_T (ID) VALUES (1), (2)")
             world.attached["DB1"]["S1"] = {"PROBE_T"}
+        if prior == "open_txn":
+            # another session of the instance is in the middle of a transaction that has written to that database
+            cur.execute("BEGIN")
+            cur.execute("INSERT INTO DB1.S1.PROBE_T (ID) VALUES (3)")
+            other = c
     elif prior == "lookalike":
         c = fs.connect()
         cur = c.cursor()
@@ -264,9 +269,15 @@ def _drive(case: dict, env: core.Env, fs: Any, world: World, other: Any, st: str
             now = (core.session_state(other), core.engine_context(other))
             if now != other_state:
                 env.witness("C14/other-session-disturbed", f"{case}: {other_state} -> {now}")
-            got = other.cursor().execute("SELECT ID FROM OT").fetchall()
-            if got != [(7,)]:
-                env.witness("C14/other-session-data", f"{got}")
+            if case["prior"] == "open_txn":
+                # its transaction is still open, with its uncommitted row
+                got = sorted(other.cursor().execute("SELECT ID FROM DB1.S1.PROBE_T").fetchall())
+                if got != [(1,), (2,), (3,)]:
+                    env.witness("C14/other-session-transaction-disturbed", f"{got}")
+            else:
+                got = other.cursor().execute("SELECT ID FROM OT").fetchall()
+                if got != [(7,)]:
+                    env.witness("C14/other-session-data", f"{got}")
     if case["db"]:
         env.nontrivial(case)
 
